@@ -1,7 +1,7 @@
 ENGINES = [
     {'name': 'E1-enum', 'path': 'mc/engine_enum.py', 'serves_properties': ['C01', 'C02', 'C04', 'C05', 'C06', 'C09', 'C12', 'C19'],
      'kind_free_text': 'sharded exhaustive enumeration of a finite input/configuration space of the real code against a reference model'},
-    {'name': 'E2-bfs', 'path': 'mc/engine_bfs.py', 'serves_properties': ['C03', 'C04', 'C05', 'C15'],
+    {'name': 'E2-bfs', 'path': 'mc/engine_bfs.py', 'serves_properties': ['C03', 'C04', 'C05', 'C15', 'C16'],
      'kind_free_text': 'explicit-state breadth-first search over live implementation objects (state = replayable operation history, canonicalised from the complete vars() of the objects), level-parallel'},
 ]
 NOTES = 'All checks are bounded exhaustive explorations of the real mido code (imported from the /repo working tree) against independent reference models; see DESIGN.md.'
@@ -62,3 +62,9 @@ CHECKS['C15'] = dict(
     technique='breadth-first search over operation histories on a pool of related live message objects against a reference pool of plain dicts (state key includes aliasing)',
     text='From each of 37 base objects (every Message type, every MetaMessage type, UnknownMetaMessage) all histories up to depth 3 (4 thorough) of copy, copy with valid/invalid overrides, freeze, thaw, valid/invalid assignment, deletion, hashing, equality and dictionary lookup on a pool of up to 3 objects are executed; after every step each object must equal its own reference dict and have the mapped class, frozen objects must reject mutation, equal frozen objects hash equal and hit as keys, None maps to None.',
     note='One representative value per attribute; depth-bounded over a deduplicated state graph whose key records object and __dict__ identity.')
+
+CHECKS['C16'] = dict(
+    engine='E2-bfs', category='model_checking', design_ref='DESIGN.md 5/C16',
+    technique='breadth-first search over edit/observe operation histories of a live MidiFile with a differential oracle (same observation on a freshly built file)',
+    text='All histories up to depth 4 (5 thorough) of 15 edit kinds interleaved with 5 observations (iterate, length, merged_track, save, play on a fake clock) are executed on a live MidiFile; after every step every observation must equal the one obtained from MidiFile(type, ticks_per_beat, tracks=deep copy). No hand-written expectation is involved.',
+    note='State = complete vars() of the MidiFile (cache fields included); tracks bounded at 2 x 3 messages for expansion; one value per edit kind.')
